@@ -371,7 +371,9 @@ def scenario(ctx):
 	thorough = ctx.tier == 'thorough'
 	kspec = _kspec(ch)
 	if exhaustive:
-		n = ch.int(0, 6 if thorough else 5, 'n_files')
+		n = ch.int(0, 5, 'n_files')
+		if thorough and n == 5 and ch.flip(0.35, 'n6'):
+			n = 6      # 720 orders x 7 fault placements: a third of the largest worlds
 	else:
 		n = ch.int(0, 12 if thorough else 8, 'n_files')
 	paths, info = _build_world(ctx, n)
